@@ -12,26 +12,41 @@ fn main() {
     let mut rs: Vec<Route> = if quick { [routes(&[0, 2]), routes(&[1, 2])].concat() } else { routes(&[0, 1, 2]) };
     rs.sort_by_key(|r| (r.f, r.r, r.m));
     rs.dedup();
-    let spec = if quick { Spec::open(2, 1, 2, 2, 2, 1, 1) } else { Spec::open(2, 2, 2, 2, 2, 1, 1) };
-    let u = spec.universe();
-    let cap = if quick { u.count() } else { 100_000 };
+    // complete universes: <=2 nodes with <=1 hyperedge; thorough adds two unary hyperedges (all labels) and two
+    // hyperedges of arity <=2 under one label per sort
+    let specs = if quick {
+        vec![Spec::open(2, 1, 2, 2, 2, 1, 1)]
+    } else {
+        vec![Spec::open(2, 1, 2, 2, 2, 1, 1), Spec { e_min: 2, ks: 1, kt: 1, ..Spec::open(2, 2, 2, 2, 2, 1, 1) }, Spec { e_min: 2, lw: 1, lx: 1, ..Spec::open(2, 2, 2, 2, 2, 1, 1) }]
+    };
     let nr = rs.len() as u64;
-    ctx.run_slice(Slice::new(format!("routing[{} first {} x {} optics]", spec.name(), cap.min(u.count()), nr), u.count().min(cap) * nr, |i, loc| {
-        let f = u.get_open(i / nr);
-        let r = rs[(i % nr) as usize];
-        // the lax entry points on every third optic
-        check_optic::<B>(&f, Arc::new(r), &serde_json::json!(r), (i % nr) % 3 == 0, loc);
-        loc.sample(|| serde_json::json!({"f": f, "optic": r}));
-    }));
+    for spec in specs {
+        let u = spec.universe();
+        let rs = &rs;
+        ctx.run_slice(Slice::new(format!("routing[{} x {} optics]", spec.name(), nr), u.count() * nr, move |i, loc| {
+            let f = u.get_open(i / nr);
+            let r = rs[(i % nr) as usize];
+            // the lax entry points on every third optic
+            check_optic::<B>(&f, Arc::new(r), &serde_json::json!(r), (i % nr) % 3 == 0, loc);
+            loc.sample(|| serde_json::json!({"f": f, "optic": r}));
+        }));
+    }
     // 3-node diagrams with two operations, a handful of optics
     let few: Vec<Route> = vec![Route { f: [1, 1], r: [1, 1], m: [1, 0] }, Route { f: [2, 1], r: [1, 2], m: [0, 2] }, Route { f: [1, 0], r: [0, 2], m: [2, 1] }];
-    let spec3 = Spec { n_min: 3, e_min: 2, ..Spec::open(3, 2, 1, 2, 2, 1, 1) };
-    let u3 = spec3.universe();
-    let cap3 = if quick { 60_000 } else { 2_000_000 };
-    ctx.run_slice(Slice::new(format!("routing-3-nodes[{} first {} x 3 optics]", spec3.name(), cap3.min(u3.count())), u3.count().min(cap3) * 3, |i, loc| {
-        let r = few[(i % 3) as usize];
-        check_optic::<B>(&u3.get_open(i / 3), Arc::new(r), &serde_json::json!(r), true, loc)
-    }));
+    let specs3 = if quick {
+        // one hyperedge label, and one node label: complete universes of 3 nodes x 2 unary hyperedges
+        vec![Spec { n_min: 3, e_min: 2, lx: 1, ..Spec::open(3, 2, 1, 2, 2, 1, 1) }, Spec { n_min: 3, e_min: 2, lw: 1, ..Spec::open(3, 2, 1, 2, 2, 1, 1) }]
+    } else {
+        vec![Spec { n_min: 3, e_min: 2, ..Spec::open(3, 2, 1, 2, 2, 1, 1) }]
+    };
+    for spec3 in specs3 {
+        let u3 = spec3.universe();
+        let few = &few;
+        ctx.run_slice(Slice::new(format!("routing-3-nodes[{} x 3 optics]", spec3.name()), u3.count() * 3, move |i, loc| {
+            let r = few[(i % 3) as usize];
+            check_optic::<B>(&u3.get_open(i / 3), Arc::new(r), &serde_json::json!(r), true, loc)
+        }));
+    }
     // boundaries of three objects (the block transposition and its inverse differ from three blocks on): all wirings
     let specb = Spec { n_min: 1, n_max: 3, e_min: 0, e_max: 0, ks: 0, kt: 0, lw: 2, lx: 1, a: 3, b: 3, q: 0 };
     let ub = specb.universe();
@@ -39,13 +54,21 @@ fn main() {
         let r = few[(i % 3) as usize];
         check_optic::<B>(&ub.get_open(i / 3), Arc::new(r), &serde_json::json!(r), (i / 3) % 4 == 0, loc)
     }));
-    let specb1 = Spec { n_min: 3, n_max: 4, e_min: 1, e_max: 1, ks: 2, kt: 2, lw: 1, lx: 2, a: 3, b: 3, q: 0 };
-    let ub1 = specb1.universe();
-    let capb = if quick { 150_000 } else { 3_000_000 };
-    ctx.run_slice(Slice::new(format!("routing-boundaries-of-three-with-operation[{} first {} x 1 optic]", specb1.name(), capb.min(ub1.count())), ub1.count().min(capb), |i, loc| {
-        let r = few[1];
-        check_optic::<B>(&ub1.get_open(i), Arc::new(r), &serde_json::json!(r), false, loc)
-    }));
+    let fullb1 = Spec { n_min: 3, n_max: 4, e_min: 1, e_max: 1, ks: 2, kt: 2, lw: 1, lx: 2, a: 3, b: 3, q: 0 };
+    let specsb1 = if quick {
+        // complete: 3 nodes, one unary hyperedge, boundaries up to 3; 3 nodes, one hyperedge of arity <=2, boundaries up to 2
+        vec![Spec { n_max: 3, ks: 1, kt: 1, ..fullb1.clone() }, Spec { n_max: 3, a: 2, b: 2, ..fullb1.clone() }]
+    } else {
+        vec![fullb1.clone()]
+    };
+    for specb1 in specsb1 {
+        let ub1 = specb1.universe();
+        let few = &few;
+        ctx.run_slice(Slice::new(format!("routing-boundaries-of-three-with-operation[{} x 1 optic]", specb1.name()), ub1.count(), move |i, loc| {
+            let r = few[1];
+            check_optic::<B>(&ub1.get_open(i), Arc::new(r), &serde_json::json!(r), false, loc)
+        }));
+    }
     // functoriality
     let specp = if quick { Spec::open(2, 1, 1, 2, 1, 1, 1) } else { Spec::open(2, 1, 1, 2, 2, 1, 1) };
     let up = specp.universe().all_open();
